@@ -411,7 +411,24 @@ static void mutate(int slot, const op_t *o)
                 else SPIF_LIST_CONTAINS(x, pr);
             } else if (IS_VEC(k)) { SPIF_VECTOR_CONTAINS(x, pr); SPIF_VECTOR_COUNT(x); }
             else {
-                if (mode % 4 == 0) { spif_obj_t vv = new_elem(100 + how % 9); spif_objpair_t pp = spif_objpair_new_from_both(pr, vv); SPIF_MAP_SET(x, pp, (spif_obj_t)NULL); spif_objpair_del(pp); SPIF_OBJ_DEL(vv); probe_hit("set_via_pair"); }
+                if (mode == 9) {
+                    /* get - modify - set: the value the map handed out goes back in under the same key */
+                    spif_obj_t v = SPIF_MAP_GET(x, pr);
+                    if (v) { SPIF_MAP_SET(x, pr, v); probe_hit("set_with_own_value"); }
+                }
+                else if (mode == 10) {
+                    /* every entry updated while walking the map, under the key object the map itself stores */
+                    spif_iterator_t it = SPIF_MAP_ITERATOR(x);
+                    spif_obj_t nv = new_elem(100 + how % 9);
+                    int n = 0;
+                    while (it && SPIF_ITERATOR_HAS_NEXT(it) && n++ < 64) {
+                        spif_objpair_t pp = (spif_objpair_t)SPIF_ITERATOR_NEXT(it);
+                        if (pp && spif_objpair_get_key(pp)) { SPIF_MAP_SET(x, spif_objpair_get_key(pp), nv); probe_hit("set_with_own_key"); }
+                    }
+                    if (it) SPIF_ITERATOR_DEL(it);
+                    SPIF_OBJ_DEL(nv);
+                }
+                else if (mode % 4 == 0) { spif_obj_t vv = new_elem(100 + how % 9); spif_objpair_t pp = spif_objpair_new_from_both(pr, vv); SPIF_MAP_SET(x, pp, (spif_obj_t)NULL); spif_objpair_del(pp); SPIF_OBJ_DEL(vv); probe_hit("set_via_pair"); }
                 else if (mode % 4 == 1) {
                     /* keys / values / pairs added to a list the caller brings along */
                     spif_list_t given = how % 2 ? SPIF_LIST_NEW(dlinked_list) : SPIF_LIST_NEW(linked_list), got;
@@ -696,7 +713,7 @@ static void gen_common(plan_t *p, rng_t *r, int c05)
         }
         if (k < 35) {
             const char *t = texts[rng_below(r, sizeof(texts) / sizeof(texts[0]))];
-            if (rng_chance(r, 1, 4)) o = plan_op(p, 0, "mut", 3, (long)s, (long)rng_below(r, 1000), (long)rng_range(r, 1, kinds[s] == K_URL ? 9 : kinds[s] == K_TOK ? 6 : 8));
+            if (rng_chance(r, 1, 4)) o = plan_op(p, 0, "mut", 3, (long)s, (long)rng_below(r, 1000), (long)rng_range(r, 1, kinds[s] == K_URL ? 9 : kinds[s] == K_TOK ? 6 : IS_MAP(kinds[s]) ? 10 : 8));
             else o = plan_op(p, 0, "mut", 2, (long)s, (long)rng_below(r, 1000));
             if (kinds[s] == K_MBUFF && rng_chance(r, 1, 3)) { static const char bin[] = "a\0b\xff\x80\0\0z"; op_str(o, bin, 1 + rng_below(r, 8)); }       /* bytes a C string cannot hold */
             else op_str(o, t, strlen(t));
